@@ -46,6 +46,7 @@ func checkC18(c *core.Ctx) error {
 	c18DecoderComplete(c)
 	c18CrossedFields(c)
 	c18EncodersPure(c)
+	c18NoSelfMarshal(c)
 	c18Decoders(c)
 	return nil
 }
@@ -2240,4 +2241,61 @@ func c18EncodersPure(c *core.Ctx) {
 		}
 	}
 	c.Analysed["encoders"] = n
+}
+
+// ---------------------------------------------------------------------------
+// R11: an encoder does not hand its own receiver back to the generic encoder
+//
+// `func (obj T) MarshalJSON() ([]byte, error) { return json.Marshal(obj) }` never returns: json.Marshal finds that T
+// implements json.Marshaler and calls MarshalJSON again. Every argument of json.Marshal inside a MarshalJSON method must
+// therefore have a type other than the receiver's (a conversion to the underlying number, a wire struct).
+func c18NoSelfMarshal(c *core.Ctx) {
+	c.Rule("C18.R11", "MarshalJSON does not pass a value of its own receiver type to json.Marshal (unbounded recursion)", 12)
+	for _, p := range c.LibPkgs() {
+		info := p.TypesInfo
+		pkg := p
+		core.EachFunc(p, func(_ *ast.File, fd *ast.FuncDecl) {
+			if fd.Name.Name != "MarshalJSON" || fd.Recv == nil || len(fd.Recv.List) == 0 || len(fd.Recv.List[0].Names) == 0 {
+				return
+			}
+			recv := info.Defs[fd.Recv.List[0].Names[0]]
+			if recv == nil {
+				return
+			}
+			rt := recv.Type()
+			if pt, ok := rt.(*types.Pointer); ok {
+				rt = pt.Elem()
+			}
+			bad := ""
+			var pos token.Pos
+			n := 0
+			ast.Inspect(fd.Body, func(x ast.Node) bool {
+				ce, ok := x.(*ast.CallExpr)
+				if !ok || len(ce.Args) != 1 {
+					return true
+				}
+				fn := core.Callee(info, ce)
+				if fn == nil || fn.Pkg() == nil || fn.Pkg().Path() != "encoding/json" || fn.Name() != "Marshal" {
+					return true
+				}
+				n++
+				if tv, ok := info.Types[ce.Args[0]]; ok {
+					at := tv.Type
+					if pt, ok := at.(*types.Pointer); ok {
+						at = pt.Elem()
+					}
+					if types.Identical(at, rt) {
+						bad = exprStr(ce.Args[0])
+						pos = ce.Pos()
+					}
+				}
+				return true
+			})
+			if n == 0 {
+				return
+			}
+			c.Check(bad == "", "C18.R11", c.FuncName(pkg, fd), "json.Marshal is not called on the receiver's own type", pos,
+				"MarshalJSON passes "+bad+", a value of its own receiver type, to json.Marshal: the generic encoder calls MarshalJSON again and the call never returns (stack overflow on every encoding of this type)")
+		})
+	}
 }
